@@ -26,3 +26,8 @@ def generate(rng, tier):
 
 def nontrivial(case):
     return case.count("add ") >= 1 and (case.count("def ") + case.count("add ")) >= 2
+
+
+def shrink(exe, case, impl, model, msg):
+    import vlib
+    return vlib.shrink_history(exe, ENGINE, case, "automata")
